@@ -72,8 +72,8 @@ class Pairs(Harness):
                  'operators.ExcelComparator.convert_other', 'utils.serialize_date',
                  'grammarparser.parser.p_expression_logical_operator')
     bounds = 'operands: any integer, any float (real abstraction), logical, blank, text of length 0..2 (quick) / 0..3 ' \
-             '(thorough) over all code points, whole-day dates and millisecond date-times 1900-03-01..9999-12-31'
-    outside = ('text longer than the bound', 'dates before 1900-03-01', 'two date-times compared with each other when one of them is a whole second but not a whole day (quick tier: any two date-times with a time part)', 'a date-time compared with a number closer than 1e-8 days to its serial')
+             '(thorough) over all code points, whole-day dates and millisecond date-times 1900-03-01..9999-12-31, whole-day dates 1900-01-01..1900-02-28'
+    outside = ('text longer than the bound', 'date-times with a time part before 1900-03-01', 'two date-times compared with each other when one of them is a whole second but not a whole day (quick tier: any two date-times with a time part)', 'a date-time compared with a number closer than 1e-8 days to its serial')
     stubs = ('IEEE rounding of the date serial as relative error 2^-53 per operation',)
 
     def cases(self, tier):
@@ -101,6 +101,11 @@ class Pairs(Harness):
                     out.append({'ta': ta, 'tb': tb_, 'la': 0, 'lb': 0, 'split': [0, 0]})
                 else:
                     out.append({'ta': ta, 'tb': tb_, 'la': 0, 'lb': 0})
+        # dates before 1 March 1900 (serial one less than the day count from 1899-12-30) against every other kind
+        for t in ('int', 'float', 'bool', 'blank', 'text', 'date', 'earlydate'):
+            out.append({'ta': 'earlydate', 'tb': t, 'la': 0, 'lb': 1})
+            if t != 'earlydate':
+                out.append({'ta': t, 'tb': 'earlydate', 'la': 1, 'lb': 0})
         return out
 
     def build(self, e, p):
